@@ -47,6 +47,7 @@ class Flow:
         self.fi = fi
         self.cfg = CFG.of_function(fi.node)
         self._memo: Dict[Tuple[int, int], List[Tuple[str, Tuple[str, ...]]]] = {}
+        self._locals = None
 
     # ------------------------------------------------------------- helpers
     def stmt_of(self, node):
@@ -72,13 +73,39 @@ class Flow:
         return names[0] if names else None
 
     def is_local(self, name: str) -> bool:
-        if name in self.fi.params:
-            return True
-        for s in self.cfg.stmt.values():
-            if name in defined_names(s):
-                return True
+        if self._locals is None:
+            loc = set(self.fi.params)
+            for s in self.cfg.stmt.values():
+                loc |= defined_names(s)
+            self._locals = loc
         # comprehension targets are handled lexically
-        return False
+        return name in self._locals
+
+    def _dict_literal_value(self, base_name: str, key: str, at_stmt):
+        """If every definition of `base_name` reaching at_stmt is a dict literal with constant keys, return the
+        value expressions stored under `key` (by the literal, or by later `base[key] = v` stores in this function);
+        None when the shape is not that simple."""
+        if at_stmt is None or not self.cfg.has(at_stmt):
+            return None
+        defs = self.cfg.defs_reaching(at_stmt, base_name)
+        if not defs or 'param' in defs:
+            return None
+        vals = []
+        for d in defs:
+            s = self.cfg.stmt[d]
+            v = getattr(s, 'value', None) if isinstance(s, (ast.Assign, ast.AnnAssign)) else None
+            if not isinstance(v, ast.Dict) or any(k is None or const_key(k) is None for k in v.keys):
+                return None
+            for k, val in zip(v.keys, v.values):
+                if const_key(k) == key:
+                    vals.append((val, s))
+        for s in self.cfg.stmt.values():
+            if isinstance(s, ast.Assign):
+                for t in s.targets:
+                    if isinstance(t, ast.Subscript) and isinstance(t.value, ast.Name) and t.value.id == base_name \
+                            and const_key(t.slice) == key:
+                        vals.append((s.value, s))
+        return vals or None
 
     # ---------------------------------------------------------- provenance
     def leaf_paths(self, expr, at=None, _depth=0, _seen=None) -> List[Tuple[str, Tuple[str, ...]]]:
@@ -114,6 +141,11 @@ class Flow:
             extra = ops
             if k is not None and isinstance(e.value, ast.Name):
                 extra = (f'key:{e.value.id}:{k}',) + ops
+                vals = self._dict_literal_value(e.value.id, k, at_stmt)
+                if vals is not None:
+                    for val, st in vals:
+                        out += self._lp(val, st, (f'name:{e.value.id}', f'[{k}]') + extra, seen, depth + 1)
+                    return out
             elif k is not None:
                 extra = (f'key:?:{k}',) + ops
             out += self._lp(e.value, at_stmt, (f'[{k if k is not None else "*"}]',) + extra, seen, depth + 1)
@@ -132,7 +164,12 @@ class Flow:
                 if cn == 'get' and e.args and const_key(e.args[0]) is not None:
                     k = const_key(e.args[0])
                     extra = (f'key:{f.value.id}:{k}',) + ops if isinstance(f.value, ast.Name) else (f'key:?:{k}',) + ops
-                    out += self._lp(f.value, at_stmt, (f'[{k}]',) + extra, seen, depth + 1)
+                    vals = self._dict_literal_value(f.value.id, k, at_stmt) if isinstance(f.value, ast.Name) else None
+                    if vals is not None:
+                        for val, st in vals:
+                            out += self._lp(val, st, (f'name:{f.value.id}', f'[{k}]') + extra, seen, depth + 1)
+                    else:
+                        out += self._lp(f.value, at_stmt, (f'[{k}]',) + extra, seen, depth + 1)
                     for a in e.args[1:]:
                         out += self._lp(a, at_stmt, ('op:default',) + ops, seen, depth + 1)
                     return out
